@@ -18,7 +18,8 @@ RULE = (
     "Client -> driver upload), under read fragmentations {1024, 1, mixed}; 'matrix': Hypothesis payloads/formats/fragmentations x "
     "observers with every policy {unset, Never, Also, Only} of two kinds (a single-connection library client, a raw peer whose inbound "
     "bytes are inspected) x BLOB kinds {complete, empty, unset-but-published}; 'large' (thorough): 100 kB - 2 MB payloads over the BLOB "
-    "connection; 'burst': 2-3 BLOBs (incl. 70 kB and 150 kB, i.e. messages > 64 KiB) and a text update published back-to-back "
+    "connection; a third driver of the same server snoops DEV with BLOBs enabled (in-process snooping client, registered before the "
+    "network clients) and must hold the same payload; 'burst': 2-3 BLOBs (incl. 70 kB and 150 kB, i.e. messages > 64 KiB) and a text update published back-to-back "
     "while every drain() of the fake transports suspends for one loop iteration (back-pressure): a raw peer with policy Also must "
     "receive every element whole, in order, bit-exact. Oracle: observers that enabled BLOBs hold identical bytes, format and length; the others' inbound byte stream "
     "contains no setBLOBVector and their mirror no payload; an upload reaches the driver element identically; a sentinel text update "
